@@ -91,6 +91,19 @@ def rand_cfg(rng, io=None, fs=None):
     }
 
 
+_COLL = {}
+
+
+def colliding_pairs(seed, n):
+    """n pairs of distinct 16-byte keys with equal xxhash64 (shard choice, batch staging index), from `xkv collide`"""
+    import subprocess
+    k = (seed, n)
+    if k not in _COLL:
+        r = subprocess.run([core.XKV, "collide", str(seed), str(n)], capture_output=True, text=True)
+        _COLL[k] = [tuple(bytes.fromhex(x) for x in l.split()) for l in r.stdout.split("\n") if len(l.split()) == 2]
+    return _COLL[k]
+
+
 def open_line(d, cfg):
     return "open %s %d %d %d %d %d %d" % (d, cfg["fs"], cfg["sync"], cfg["bps"], cfg["idx"], cfg["io"], cfg["shards"])
 
@@ -99,12 +112,16 @@ class Gen:
     """workload generator with a predicted active-file size (used only to steer value lengths onto
     block boundaries and rotation thresholds; a wrong prediction costs precision, not soundness)."""
 
-    def __init__(self, rng, cfg, nkeys=8, d="d", weights=None, max_val=3 * BS, batch_ids=True):
+    def __init__(self, rng, cfg, nkeys=8, d="d", weights=None, max_val=3 * BS, batch_ids=True, collisions=0):
         self.rng = rng
         self.cfg = dict(cfg)
         self.d = d
         self.ops = []
         self.keys = self.make_keys(nkeys)
+        if collisions:
+            # keys with EQUAL xxhash64: same index shard, same bucket of a batch's staging index
+            for a, b in colliding_pairs(rng.randrange(1 << 30), collisions):
+                self.keys += [a, b]
         self.size = 0          # predicted logical size of the active file
         self.seed = 0
         self.batch_open = False
